@@ -135,7 +135,10 @@ def checkRs (cfg : RsCfg) (sc : Nat → Call) (evs : List IEv) (A : Abs) : List 
     let c0 := ctxOf e0
     if !(acts.all fun e => ctxOf e == c0) then v := v ++ ["C02.context_same_in_chain"]
     match (if paused then none else A.susp) with
-    | some (_, c) => if c0 != c then v := v ++ ["C06.same_ctx"]
+    | some (_, c) =>
+      if c0 != c then v := v ++ ["C06.same_ctx"]
+      -- a resumed chain still belongs to the ruleset and to the group that fired it
+      if c0.1 != c.1 || c0.2.1 != c.2.1 then v := v ++ ["C02.context_resumed"]
     | none =>
       match firedG with
       | some g =>
